@@ -436,7 +436,10 @@ func genLengthLie(t *rapid.T, recv string) []byte {
 			b = append(b, u...)
 		}
 		if rapid.IntRange(0, 3).Draw(t, "liepaci") == 0 {
-			b = []byte{50 << 1, 1, byte(rapid.IntRange(0, 255).Draw(t, "paci0")), byte(rapid.IntRange(0, 255).Draw(t, "paci1"))}
+			// PACI: A(1) cType(6) PHSsize(5) F0 F1 F2 Y; cType biased to the wrapped FU / AP / PACI types, PHSsize to sizes
+			// that reach past the end of a short packet
+			p0 := rapid.OneOf(rapid.SampledFrom([]int{0x62, 0x63, 0xE2, 0xE3, 0x60, 0x61, 0x64, 0x02}), rapid.IntRange(0, 255)).Draw(t, "paci0")
+			b = []byte{50 << 1, 1, byte(p0), byte(rapid.OneOf(rapid.SampledFrom([]int{0x00, 0x10, 0x30, 0x38, 0xF0, 0xF8, 0x80}), rapid.IntRange(0, 255)).Draw(t, "paci1"))}
 			b = append(b, unit()...)
 		}
 	case "vp8", "vp9":
@@ -575,7 +578,7 @@ func enumC09(r *run, maxLen int) bool {
 	return true
 }
 
-const ruleC09 = "rapid draws a receiver (H264Packet Annex-B/AVC/zero-allocation, H265Packet +-DONL, VP8Packet, VP9Packet, AV1Depacketizer, AV1Packet + frame.AV1 directly or through pkg/frame, OpusPacket, H265/VP8/VP9/AV1 depacketizers in zero-allocation mode (bytes and error-ness only), the deprecated PartitionHeadChecker types) and 1-8 steps Unmarshal/IsPartitionHead/IsPartitionTail over payloads that are nil, empty, random (1-60 bytes), valid (library payloader output fed mostly in order, reference-built descriptors/payloads, AV1 trains of an independent encoder with W=0 and counted forms) or 1-2 byte mutations of valid ones; plus every byte string of length <=2 (quick) / <=3 (thorough) against every receiver. Oracle: no panic, input unmodified; per-packet formats: result, error-ness and all metadata equal a fresh receiver's; H264Packet/AV1Depacketizer: each input buffer is overwritten after the call and every result (and AV1 Z/Y/N) must equal a twin's that got pristine copies. Non-trivial = >=2 accepted payloads on one receiver, every enumerated string; distinct = FNV-64 of the JSON case"
+const ruleC09 = "rapid draws a receiver (H264Packet Annex-B/AVC/zero-allocation, H265Packet +-DONL, VP8Packet, VP9Packet, AV1Depacketizer, AV1Packet + frame.AV1 directly or through pkg/frame, OpusPacket, H265/VP8/VP9/AV1 depacketizers in zero-allocation mode (bytes and error-ness only), the deprecated PartitionHeadChecker types) and 1-8 steps Unmarshal/IsPartitionHead/IsPartitionTail over payloads that are nil, empty, random (1-60 bytes), valid (library payloader output fed mostly in order, reference-built descriptors/payloads, AV1 trains of an independent encoder with W=0 and counted forms) or 1-2 byte mutations of valid ones, and aggregation-style payloads whose length fields lie (H265 PACI with cType biased to the wrapped FU/AP/PACI types and header-extension sizes past the end); plus every byte string of length <=2 (quick) / <=3 (thorough) against every receiver. Oracle: no panic, input unmodified; per-packet formats: result, error-ness and all metadata equal a fresh receiver's; H264Packet/AV1Depacketizer: each input buffer is overwritten after the call and every result (and AV1 Z/Y/N) must equal a twin's that got pristine copies. Non-trivial = >=2 accepted payloads on one receiver, every enumerated string; distinct = FNV-64 of the JSON case"
 
 func TestC09(t *testing.T) {
 	r := begin(t, "C09", "exploration", ruleC09)
